@@ -76,7 +76,9 @@ func genC07Script(r *wk.Rand, tag string) []c07Item {
 			}
 			sig := wk.Pick(r, []string{"record", "record", "record", "nosuchsignal", ""})
 			var data any = map[string]any{"v": int64(r.Intn(100))}
-			if r.Chance(25) {
+			if r.Chance(12) {
+				data = map[string]any{"v": int64(rig.SignalPanicValue)} // valid data on which the plugin's handler panics
+			} else if r.Chance(25) {
 				data = wk.Pick(r, []any{map[string]any{"v": "x"}, nil, int64(3), map[string]any{}})
 			}
 			items = append(items, c07Item{kind: "signal", bytes: c07Signal(run, sig, data), run: run})
@@ -185,7 +187,7 @@ func c07Directed(r *wk.Rand) [][]c07Item {
 		wrap(c07Garbage(r, w))
 	}
 	for _, sig := range []string{"record", "nosuchsignal", ""} {
-		for _, data := range []any{map[string]any{"v": int64(1)}, map[string]any{"v": "x"}, nil} {
+		for _, data := range []any{map[string]any{"v": int64(1)}, map[string]any{"v": "x"}, nil, map[string]any{"v": int64(rig.SignalPanicValue)}} {
 			n++
 			for _, mode := range []string{"ok", "gated"} {
 				run := fmt.Sprintf("d%d-s-%s", n, mode)
